@@ -30,6 +30,8 @@ func runAsmDomain(domain string, out *bufio.Writer, rng *rand.Rand, thorough boo
 		genExpr(out, rng, cnt(4000, 200000))
 	case "for":
 		genFor(out, rng, cnt(3000, 150000))
+	case "cli":
+		genCLI(out, rng, cnt(400, 20000))
 	case "soup":
 		genSoup(out, rng, cnt(12000, 600000))
 	default:
